@@ -1,4 +1,5 @@
 import AgdbColl.Lemmas.NoWrap
+import AgdbColl.Lemmas.Count
 /-!
 `rehash` re-establishes `NoWrap` from scratch: every pair of the new table was placed at the first
 unoccupied position from its new home, and the table keeps at least two positions free.
@@ -130,43 +131,61 @@ structure RInv2 (h : K → Nat) (new cur : Nat) (s : List (Slot K T)) (i : Nat) 
   unplaced : ∀ j, j < new → stAt s j = .valid → occ.getD j false = false → i ≤ j ∧ j < cur
   nowrap : ∀ j, j < new → occ.getD j false = true →
     nextPos new j ≠ h (getSlot s j).key % new
+  path : ∀ j, j < new → occ.getD j false = true → ∀ q, q < new →
+    distFrom new (h (getSlot s j).key % new) q < distFrom new (h (getSlot s j).key % new) j →
+    occ.getD q false = true
+
+theorem occ_mono (occ : List Bool) (p q : Nat) (h : occ.getD q false = true) :
+    (occ.set p true).getD q false = true := by
+  rw [getD_set_occ]; split
+  · rfl
+  · exact h
 
 theorem rehashLoop_nowrap (h : K → Nat) (F cur new L V : Nat) (hnew : 0 < new) (hcurL : cur ≤ L)
-    (hnewL : new ≤ L) (hV : V + 2 ≤ new) :
+    (hnewL : new ≤ L) (hV : V + 2 ≤ new) (P : Slot K T → Bool) (hP : VP P) (C : Nat) :
     ∀ fuel (s : List (Slot K T)) i occ s', RInv new L s i occ → RInv2 h new cur s i occ → i ≤ cur →
-      countValid s = V → rehashLoop h F cur new fuel s i occ = .ok s' →
+      countValid s = V → cnt P s = C → rehashLoop h F cur new fuel s i occ = .ok s' →
       s'.length = L ∧
-        ∀ j, j < new → stAt s' j = .valid → nextPos new j ≠ h (getSlot s' j).key % new := by
+        (∀ j, j < new → stAt s' j = .valid → nextPos new j ≠ h (getSlot s' j).key % new) ∧
+        (∀ j, j < new → stAt s' j = .valid → ∀ q, q < new →
+          distFrom new (h (getSlot s' j).key % new) q < distFrom new (h (getSlot s' j).key % new) j →
+          stAt s' q = .valid) ∧
+        cnt P s' = C ∧ (∀ j, new ≤ j → j < cur → stAt s' j ≠ .valid) := by
   intro fuel
   induction fuel with
-  | zero => intro s i occ s' _ _ _ _ hr; simp [rehashLoop] at hr
+  | zero => intro s i occ s' _ _ _ _ _ hr; simp [rehashLoop] at hr
   | succ n ih =>
-    intro s i occ s' inv inv2 hi hcv hr
+    intro s i occ s' inv inv2 hi hcv hcn hr
     unfold rehashLoop at hr
     by_cases hic : i = cur
     · simp only [hic, if_true] at hr
       cases hr
       subst hic
-      refine ⟨inv.len, ?_⟩
-      intro j hj hv
-      cases hb : occ.getD j false with
-      | true => exact inv2.nowrap j hj hb
-      | false =>
-        have := inv2.unplaced j hj hv hb
-        omega
+      have hocc : ∀ j, j < new → stAt s j = .valid → occ.getD j false = true := by
+        intro j hj hv
+        cases hb : occ.getD j false with
+        | true => rfl
+        | false =>
+          have := inv2.unplaced j hj hv hb
+          omega
+      refine ⟨inv.len, ?_, ?_, hcn, inv.high⟩
+      · intro j hj hv
+        exact inv2.nowrap j hj (hocc j hj hv)
+      · intro j hj hv q hq hd
+        exact inv.placed q hq (inv2.path j hj (hocc j hj hv) q hq hd)
     · simp only [hic, if_false] at hr
       have hiL : i < L := by omega
       have hiS : i < s.length := by rw [inv.len]; exact hiL
       cases hst : stAt s i with
       | empty =>
         simp only [hst] at hr
-        refine ih s (i + 1) occ s' ?_ ?_ (by omega) hcv hr
+        refine ih s (i + 1) occ s' ?_ ?_ (by omega) hcv hcn hr
         · refine ⟨inv.len, inv.occLen, inv.placed, ?_⟩
           intro j hj1 hj2
           by_cases e : j = i
           · subst e; simp [hst]
           · exact inv.high j hj1 (by omega)
-        · refine ⟨?_, inv2.nowrap⟩
+        · refine ⟨?_, inv2.nowrap, inv2.path⟩
           intro j hj hv hb
           have := inv2.unplaced j hj hv hb
           have hne : j ≠ i := by
@@ -175,7 +194,8 @@ theorem rehashLoop_nowrap (h : K → Nat) (F cur new L V : Nat) (hnew : 0 < new)
       | deleted =>
         simp only [hst] at hr
         have hnv : ∀ s2 : List (Slot K T), s2 = (if i < new then setSt s i .empty else s) →
-            RInv new L s2 (i + 1) occ ∧ RInv2 h new cur s2 (i + 1) occ ∧ countValid s2 = V := by
+            RInv new L s2 (i + 1) occ ∧ RInv2 h new cur s2 (i + 1) occ ∧ countValid s2 = V ∧
+              cnt P s2 = C := by
           intro s2 hs2
           have hst2 : ∀ k, stAt s2 k = .valid → k ≠ i ∧ stAt s k = .valid := by
             intro k hk
@@ -218,7 +238,16 @@ theorem rehashLoop_nowrap (h : K → Nat) (F cur new L V : Nat) (hnew : 0 < new)
               rw [if_neg e1, if_neg e2] at hc
               exact (hc : countValid (setSt s i .empty) = countValid s).trans hcv
             · simp only [hin, if_false] at hs2; subst hs2; exact hcv
-          refine ⟨⟨hlen2, inv.occLen, ?_, ?_⟩, ⟨?_, ?_⟩, hcv2⟩
+          have hcn2 : cnt P s2 = C := by
+            by_cases hin : i < new
+            · simp only [hin, if_true] at hs2
+              subst hs2
+              have e1 : stAt s i ≠ .valid := by rw [hst]; intro c; cases c
+              have e2 : ({ getSlot s i with st := St.empty } : Slot K T).st ≠ .valid := by
+                intro c; cases c
+              exact (cnt_set_nonvalid P hP s i _ hiS e1 e2).trans hcn
+            · simp only [hin, if_false] at hs2; subst hs2; exact hcn
+          refine ⟨⟨hlen2, inv.occLen, ?_, ?_⟩, ⟨?_, ?_, ?_⟩, hcv2, hcn2⟩
           · intro j hj hb
             have hv := inv.placed j hj hb
             have hne : j ≠ i := by
@@ -237,19 +266,25 @@ theorem rehashLoop_nowrap (h : K → Nat) (F cur new L V : Nat) (hnew : 0 < new)
               intro e; subst e; rw [hst] at hv; cases hv
             rw [(hst2' j hne).2]
             exact inv2.nowrap j hj hb
-        obtain ⟨a, b, c⟩ := hnv _ rfl
-        exact ih _ (i + 1) occ s' a b (by omega) c hr
+          · intro j hj hb
+            have hv := inv.placed j hj hb
+            have hne : j ≠ i := by
+              intro e; subst e; rw [hst] at hv; cases hv
+            rw [(hst2' j hne).2]
+            exact inv2.path j hj hb
+        obtain ⟨a, b, c, d⟩ := hnv _ rfl
+        exact ih _ (i + 1) occ s' a b (by omega) c d hr
       | valid =>
         simp only [hst] at hr
         by_cases hpl : i < new ∧ occ.getD i false = true
         · simp only [hpl, and_self, if_true] at hr
-          refine ih s (i + 1) occ s' ?_ ?_ (by omega) hcv hr
+          refine ih s (i + 1) occ s' ?_ ?_ (by omega) hcv hcn hr
           · refine ⟨inv.len, inv.occLen, inv.placed, ?_⟩
             intro j hj1 hj2
             by_cases e : j = i
             · subst e; omega
             · exact inv.high j hj1 (by omega)
-          · refine ⟨?_, inv2.nowrap⟩
+          · refine ⟨?_, inv2.nowrap, inv2.path⟩
             intro j hj hv hb
             have := inv2.unplaced j hj hv hb
             have hne : j ≠ i := by
@@ -275,7 +310,8 @@ theorem rehashLoop_nowrap (h : K → Nat) (F cur new L V : Nat) (hnew : 0 < new)
               subst e
               exact hpl ⟨hj, hb⟩
             refine ih (swapSlots s i p) (if i = p then i + 1 else i) (occ.set p true) s' ?_ ?_
-              (by split <;> omega) (by rw [countValid_swapSlots s i p hiS hpS]; exact hcv) hr
+              (by split <;> omega) (by rw [countValid_swapSlots s i p hiS hpS]; exact hcv)
+              (by rw [cnt_swapSlots P s i p hiS hpS]; exact hcn) hr
             · refine ⟨by simp [length_swapSlots, inv.len], by simp [inv.occLen], ?_, ?_⟩
               · intro k hk hb
                 rw [stAt_swapSlots s i p k hiS hpS]
@@ -300,7 +336,7 @@ theorem rehashLoop_nowrap (h : K → Nat) (F cur new L V : Nat) (hnew : 0 < new)
                   have e2 : k ≠ i := by omega
                   simp only [e2, if_false]
                   exact inv.high k hk1 hk2
-            · refine ⟨?_, ?_⟩
+            · refine ⟨?_, ?_, ?_⟩
               · intro j hj hv hb
                 rw [getD_set_occ] at hb
                 have hjp : j ≠ p := by
@@ -337,6 +373,20 @@ theorem rehashLoop_nowrap (h : K → Nat) (F cur new L V : Nat) (hnew : 0 < new)
                   have hji := hne_ip j hj hb
                   simp only [hjp, hji, if_false]
                   exact inv2.nowrap j hj hb
+              · intro j hj hb q hq
+                rw [getD_set_occ] at hb
+                rw [getSlot_swapSlots s i p j hiS hpS]
+                by_cases hjp : j = p
+                · subst hjp
+                  simp only [if_true]
+                  intro hd
+                  exact occ_mono occ j q (hfirst q hq hd)
+                · have e' : ¬ (p = j ∧ p < occ.length) := fun c => hjp c.1.symm
+                  simp only [e', if_false] at hb
+                  have hji := hne_ip j hj hb
+                  simp only [hjp, hji, if_false]
+                  intro hd
+                  exact occ_mono occ p q (inv2.path j hj hb q hq hd)
           | err k => rw [hpr] at hr; simp [Outcome.cast] at hr
           | panic k => rw [hpr] at hr; simp [Outcome.cast] at hr
           | hugeAlloc k => rw [hpr] at hr; simp [Outcome.cast] at hr
@@ -371,7 +421,7 @@ theorem rehash_nowrap (h : K → Nat) (F : Nat) (m m' : MM K T) (c new : Nat) (h
       · intro j _ hj; omega
     have inv20 : RInv2 h new m.cap (m.slots ++ List.replicate (new - m.cap) emptySlot) 0
         (List.replicate new false) := by
-      refine ⟨?_, ?_⟩
+      refine ⟨?_, ?_, ?_⟩
       · intro j hj hv _
         refine ⟨by omega, ?_⟩
         apply Classical.byContradiction
@@ -380,14 +430,16 @@ theorem rehash_nowrap (h : K → Nat) (F : Nat) (m m' : MM K T) (c new : Nat) (h
         cases hv
       · intro j hj hb
         simp [List.getD_eq_getElem?_getD, List.getElem?_replicate, hj] at hb
+      · intro j hj hb
+        simp [List.getD_eq_getElem?_getD, List.getElem?_replicate, hj] at hb
     cases hl : rehashLoop h F m.cap new F (m.slots ++ List.replicate (new - m.cap) emptySlot) 0
         (List.replicate new false) with
     | ok s' =>
       rw [hl] at hr
       cases hr
-      obtain ⟨hl', hn'⟩ := rehashLoop_nowrap h F m.cap new new (countValid m.slots) hmin
-        (by omega) (Nat.le_refl _) (by omega) F _ 0 _ s' inv0 inv20 (by omega)
-        (countValid_append_empties _ _) hl
+      obtain ⟨hl', hn', _, _, _⟩ := rehashLoop_nowrap h F m.cap new new (countValid m.slots) hmin
+        (by omega) (Nat.le_refl _) (by omega) (fun _ => false) (by intro sl c; cases c) 0 F _ 0 _ s'
+        inv0 inv20 (by omega) (countValid_append_empties _ _) (by simp [cnt]) hl
       intro p hp hv
       simp only [hl'] at hp ⊢
       exact hn' p hp hv
@@ -404,17 +456,20 @@ theorem rehash_nowrap (h : K → Nat) (F : Nat) (m m' : MM K T) (c new : Nat) (h
           simp [List.getD_eq_getElem?_getD, List.getElem?_replicate, hj] at hb
         · intro j _ hj; omega
       have inv20 : RInv2 h new m.cap m.slots 0 (List.replicate new false) := by
-        refine ⟨?_, ?_⟩
+        refine ⟨?_, ?_, ?_⟩
         · intro j hj hv _
           exact ⟨by omega, by omega⟩
+        · intro j hj hb
+          simp [List.getD_eq_getElem?_getD, List.getElem?_replicate, hj] at hb
         · intro j hj hb
           simp [List.getD_eq_getElem?_getD, List.getElem?_replicate, hj] at hb
       cases hl : rehashLoop h F m.cap new F m.slots 0 (List.replicate new false) with
       | ok s' =>
         rw [hl] at hr
         cases hr
-        obtain ⟨hl', hn'⟩ := rehashLoop_nowrap h F m.cap new m.cap (countValid m.slots) hmin
-          (Nat.le_refl _) (by omega) (by omega) F _ 0 _ s' inv0 inv20 (by omega) rfl hl
+        obtain ⟨hl', hn', _, _, _⟩ := rehashLoop_nowrap h F m.cap new m.cap (countValid m.slots) hmin
+          (Nat.le_refl _) (by omega) (by omega) (fun _ => false) (by intro sl c; cases c) 0 F _ 0 _ s'
+          inv0 inv20 (by omega) rfl (by simp [cnt]) hl
         have hlt' : (s'.take new).length = new := by
           rw [List.length_take, hl']; exact Nat.min_eq_left (by omega)
         intro p hp hv
@@ -430,6 +485,115 @@ theorem rehash_nowrap (h : K → Nat) (F : Nat) (m m' : MM K T) (c new : Nat) (h
     · simp only [hgt, if_false] at hr
       cases hr
       exact hnw
+
+/-- the probe-chain invariant: every slot on the probe path from a pair's home to the pair is
+non-`Empty` (so a probe that stops at an `Empty` slot has seen every pair of the key) -/
+def Chain (h : K → Nat) (s : List (Slot K T)) : Prop :=
+  ∀ p, p < s.length → stAt s p = .valid → ∀ q, q < s.length →
+    distFrom s.length (h (getSlot s p).key % s.length) q <
+      distFrom s.length (h (getSlot s p).key % s.length) p → stAt s q ≠ .empty
+
+/-- `rehash` preserves the multiset of pairs (every count) and re-establishes the probe chain -/
+theorem rehash_refine (h : K → Nat) (F : Nat) (m m' : MM K T) (c new : Nat) (hnd : new = max c MIN_CAP)
+    (hlen : m.len = countValid m.slots) (hV : m.len + 2 ≤ new) (hr : rehash h F m c = .ok m')
+    (hch : Chain h m.slots) :
+    Chain h m'.slots ∧ ∀ P : Slot K T → Bool, VP P → cnt P m'.slots = cnt P m.slots := by
+  unfold rehash at hr
+  have hmin : 0 < new := by rw [hnd]; simp [MIN_CAP]; omega
+  simp only [← hnd] at hr
+  by_cases hlt : m.cap < new
+  · simp only [hlt, if_true] at hr
+    have inv0 : RInv new new (m.slots ++ List.replicate (new - m.cap) emptySlot) 0
+        (List.replicate new false) := by
+      refine ⟨?_, by simp, ?_, ?_⟩
+      · simp only [List.length_append, List.length_replicate, MM.cap] at hlt ⊢; omega
+      · intro j hj hb
+        simp [List.getD_eq_getElem?_getD, List.getElem?_replicate, hj] at hb
+      · intro j _ hj; omega
+    have inv20 : RInv2 h new m.cap (m.slots ++ List.replicate (new - m.cap) emptySlot) 0
+        (List.replicate new false) := by
+      refine ⟨?_, ?_, ?_⟩
+      · intro j hj hv _
+        refine ⟨by omega, ?_⟩
+        apply Classical.byContradiction
+        intro hc
+        rw [stAt_append_replicate_ge m.slots _ j (by simp only [MM.cap] at hc; omega)] at hv
+        cases hv
+      · intro j hj hb
+        simp [List.getD_eq_getElem?_getD, List.getElem?_replicate, hj] at hb
+      · intro j hj hb
+        simp [List.getD_eq_getElem?_getD, List.getElem?_replicate, hj] at hb
+    cases hl : rehashLoop h F m.cap new F (m.slots ++ List.replicate (new - m.cap) emptySlot) 0
+        (List.replicate new false) with
+    | ok s' =>
+      rw [hl] at hr
+      cases hr
+      refine ⟨?_, ?_⟩
+      · obtain ⟨hl', _, hc', _, _⟩ := rehashLoop_nowrap h F m.cap new new (countValid m.slots) hmin
+          (by omega) (Nat.le_refl _) (by omega) (fun _ => false) (by intro sl c; cases c) 0 F _ 0 _ s'
+          inv0 inv20 (by omega) (countValid_append_empties _ _) (by simp [cnt]) hl
+        intro p hp hv q hq hd
+        simp only [hl'] at hp hq hd
+        have := hc' p hp hv q hq hd
+        rw [this]; intro c; cases c
+      · intro P hP
+        obtain ⟨_, _, _, hcn', _⟩ := rehashLoop_nowrap h F m.cap new new (countValid m.slots) hmin
+          (by omega) (Nat.le_refl _) (by omega) P hP (cnt P m.slots) F _ 0 _ s'
+          inv0 inv20 (by omega) (countValid_append_empties _ _) (cnt_append_empties P hP _ _) hl
+        exact hcn'
+    | err k => rw [hl] at hr; simp [Outcome.cast] at hr
+    | panic k => rw [hl] at hr; simp [Outcome.cast] at hr
+    | hugeAlloc k => rw [hl] at hr; simp [Outcome.cast] at hr
+    | outOfFuel => rw [hl] at hr; simp [Outcome.cast] at hr
+  · simp only [hlt, if_false] at hr
+    by_cases hgt : new < m.cap
+    · simp only [hgt, if_true] at hr
+      have inv0 : RInv new m.cap m.slots 0 (List.replicate new false) := by
+        refine ⟨rfl, by simp, ?_, ?_⟩
+        · intro j hj hb
+          simp [List.getD_eq_getElem?_getD, List.getElem?_replicate, hj] at hb
+        · intro j _ hj; omega
+      have inv20 : RInv2 h new m.cap m.slots 0 (List.replicate new false) := by
+        refine ⟨?_, ?_, ?_⟩
+        · intro j hj hv _
+          exact ⟨by omega, by omega⟩
+        · intro j hj hb
+          simp [List.getD_eq_getElem?_getD, List.getElem?_replicate, hj] at hb
+        · intro j hj hb
+          simp [List.getD_eq_getElem?_getD, List.getElem?_replicate, hj] at hb
+      cases hl : rehashLoop h F m.cap new F m.slots 0 (List.replicate new false) with
+      | ok s' =>
+        rw [hl] at hr
+        cases hr
+        have hbase := rehashLoop_nowrap h F m.cap new m.cap (countValid m.slots) hmin
+          (Nat.le_refl _) (by omega) (by omega) (fun _ => false) (by intro sl c; cases c) 0 F _ 0 _ s'
+          inv0 inv20 (by omega) rfl (by simp [cnt]) hl
+        obtain ⟨hl', _, hc', _, hhigh⟩ := hbase
+        have hlt' : (s'.take new).length = new := by
+          rw [List.length_take, hl']; exact Nat.min_eq_left (by omega)
+        refine ⟨?_, ?_⟩
+        · intro p hp hv q hq hd
+          simp only [hlt'] at hp hq hd
+          have e1 : stAt (s'.take new) p = stAt s' p := by simp only [stAt, getSlot_take s' new p hp]
+          have e2 : stAt (s'.take new) q = stAt s' q := by simp only [stAt, getSlot_take s' new q hq]
+          rw [e1] at hv
+          rw [getSlot_take s' new p hp] at hd
+          rw [e2, hc' p hp hv q hq hd]; intro c; cases c
+        · intro P hP
+          obtain ⟨_, _, _, hcn', _⟩ := rehashLoop_nowrap h F m.cap new m.cap (countValid m.slots) hmin
+            (Nat.le_refl _) (by omega) (by omega) P hP (cnt P m.slots) F _ 0 _ s'
+            inv0 inv20 (by omega) rfl rfl hl
+          show cnt P (s'.take new) = cnt P m.slots
+          rw [cnt_take_eq P hP s' new (by
+            intro j hj1 hj2; exact hhigh j hj1 (by rw [hl'] at hj2; exact hj2))]
+          exact hcn'
+      | err k => rw [hl] at hr; simp [Outcome.cast] at hr
+      | panic k => rw [hl] at hr; simp [Outcome.cast] at hr
+      | hugeAlloc k => rw [hl] at hr; simp [Outcome.cast] at hr
+      | outOfFuel => rw [hl] at hr; simp [Outcome.cast] at hr
+    · simp only [hgt, if_false] at hr
+      cases hr
+      exact ⟨hch, fun _ _ => rfl⟩
 
 end
 end AgdbColl
